@@ -290,6 +290,8 @@ def axioms(names):
         "pi": [PI > PI_LO, PI < PI_HI],
         "sqrt": [z3.ForAll([x], z3.Implies(x >= 0, z3.And(u_sqrt(x) >= 0, u_sqrt(x) * u_sqrt(x) == x)),
                            patterns=[u_sqrt(x)])],
+        # derived fact (proved as lemma XR.sqrt_sq from the defining axiom): sqrt(d*d) = d for d >= 0
+        "sqrt_sq": [z3.ForAll([x], z3.Implies(x >= 0, u_sqrt(x * x) == x), patterns=[u_sqrt(x * x)])],
         "sqrt_mono": [z3.ForAll([x, y], z3.Implies(z3.And(0 <= x, x <= y), u_sqrt(x) <= u_sqrt(y)),
                                 patterns=[z3.MultiPattern(u_sqrt(x), u_sqrt(y))])],
         "atan_range": [z3.ForAll([x], z3.And(u_atan(x) > -PI / 2, u_atan(x) < PI / 2), patterns=[u_atan(x)])],
